@@ -31,17 +31,18 @@
 (*         as to be reached: every field kind of the FOAM byte codec a      *)
 (*         source program can drive beyond one byte, and every leaf kind    *)
 (*         of a type expression;                                            *)
-(*   Reach {fields: [{field, max}]}   after the Final event of a FOAM text  *)
-(*         generated directly from a source: the largest value of each      *)
-(*         field kind in that text.  The path that follows through .ao /    *)
-(*         .al is then a witness for these field kinds at that width;       *)
-(*   LinkRun events of library + client programs carry leaves: the leaf     *)
-(*         kinds of the type expressions the library exports.               *)
+(*   Reach {fields: [{field, max}]}   at the start of a path through saved  *)
+(*         forms: the largest value of each field kind in the FOAM text     *)
+(*         generated directly from the source at the path's level.  The     *)
+(*         path through .ao is then a witness for these field kinds;        *)
+(*   Split events of library + client programs carry leaves: the leaf kinds *)
+(*         of the type expressions the library exports.                     *)
 (* At the end every needed (field, bound) must have been reached by a unit  *)
-(* whose saved-form paths were performed, and every needed leaf kind by a   *)
-(* split program that was linked and run; a gap prints a GAP line (the      *)
-(* harness treats it as a machinery error: the binding did not cover what   *)
-(* the specification enumerates).                                           *)
+(* that was saved as .ao (a Step to ao was performed: whatever goes wrong   *)
+(* from there on is a BAD line), and every needed leaf kind by a split      *)
+(* program whose library was compiled; a gap prints a GAP line (the harness *)
+(* treats it as a machinery error: the binding did not cover what the       *)
+(* specification enumerates).                                               *)
 (* Run with -workers 1.                                                    *)
 (***************************************************************************)
 EXTENDS Units, IOUtils
@@ -85,12 +86,14 @@ TrBegin ==
 Skip == /\ l <= Len(Trc) /\ dead /\ Trc[l].ev # "Begin"
         /\ l' = l + 1 /\ UNCHANGED <<vars, prog, seen, rawcur, dead, nbad, cov>>
 
-Kill(why) == /\ Bad(why) /\ dead' = TRUE /\ l' = l + 1 /\ UNCHANGED <<vars, prog, seen, rawcur, cov>>
+Kill(why) == /\ Bad(why) /\ dead' = TRUE /\ l' = l + 1 /\ UNCHANGED <<vars, prog, seen, rawcur, wide>>
 
 CanSave(to) == DoPaths /\ obs = None /\ split = None /\ to \in Saved /\ Legal(cur.kind, to) /\ Len(chain) < MaxLen
 
 TrStep ==
   /\ IsEvent("Step") /\ ~dead
+  /\ need' = IF CanSave(Ev.to) /\ Ev.to = "ao" /\ cur.kind = "src"
+              THEN [need EXCEPT !.fields = {x \in @ : ~\E w \in wide : w[1] = x[1] /\ w[2] >= x[2]}] ELSE need
   /\ IF ~CanSave(Ev.to) THEN Kill("illegal step")
      ELSE IF ~Ev.ok THEN Kill("step failed")
      ELSE /\ Save(Ev.to)
@@ -98,7 +101,7 @@ TrStep ==
           /\ IF StepName(cur.kind, Ev.to) \in {"Resave", "Archive", "Extract"} /\ Ev.raw # rawcur
              THEN Bad("identity: " \o StepName(cur.kind, Ev.to) \o " changed the bytes")
              ELSE Good
-          /\ l' = l + 1 /\ UNCHANGED <<prog, seen, dead, cov>>
+          /\ l' = l + 1 /\ UNCHANGED <<prog, seen, dead, wide>>
 
 CanObserve(to) == /\ DoPaths /\ obs = None /\ split = None /\ to \in Finals /\ Legal(cur.kind, to)
                   /\ ~(cur.kind = "fm" /\ to = "fm")
@@ -110,7 +113,7 @@ TextAgrees == IF Ev.subst = 0 THEN Ev.nb = seen[Key(Ev.to)].nb ELSE Ev.nt = seen
 RunAgrees  == Ev.od = seen[Key(Ev.to)].od
 
 TrFinal ==
-  /\ IsEvent("Final") /\ ~dead
+  /\ IsEvent("Final") /\ ~dead /\ UNCHANGED need
   /\ IF ~CanObserve(Ev.to) THEN Kill("illegal step")
      ELSE IF ~Ev.ok THEN Kill("step failed")
      ELSE /\ Observe(Ev.to)
@@ -124,10 +127,6 @@ TrFinal ==
                      ELSE IF Ev.to \in Runs /\ ~Ev.conf THEN Bad("behaviour: the run does not conform")
                      ELSE IF Ev.to \in Runs /\ ~RunAgrees THEN Bad("behaviour: the run differs from the direct run")
                      ELSE Good
-          \* a FOAM text regenerated from a saved form (and agreeing, else a BAD line stands) witnesses the fields reached
-          /\ need' = IF chain # <<>> /\ Ev.to = "fm" /\ Key(Ev.to) \in DOMAIN seen /\ TextAgrees
-                      THEN [need EXCEPT !.fields = {x \in @ : ~\E w \in wide : w[1] = x[1] /\ w[2] >= x[2]}]
-                      ELSE need
           /\ l' = l + 1 /\ UNCHANGED <<prog, rawcur, dead, wide>>
 
 TrNeed ==
@@ -137,21 +136,22 @@ TrNeed ==
   /\ l' = l + 1 /\ UNCHANGED <<vars, prog, seen, rawcur, dead, nbad, wide>>
 
 TrReach ==
-  /\ IsEvent("Reach")
+  /\ IsEvent("Reach") /\ ~dead
   /\ wide' = {<<Ev.fields[i].field, Ev.fields[i].max>> : i \in DOMAIN Ev.fields}
   /\ l' = l + 1 /\ UNCHANGED <<vars, prog, seen, rawcur, dead, nbad, need>>
 
 TrSplit ==
   /\ IsEvent("Split") /\ ~dead
+  /\ need' = IF "leaves" \in DOMAIN Ev THEN [need EXCEPT !.leaves = @ \ ToSet(Ev.leaves)] ELSE need
   /\ LET L == ToSet(Ev.lib) IN
      IF ~(DoSplits /\ obs = None /\ split = None /\ chain = <<>> /\ L # {} /\ L \subseteq 1..NFuns
           /\ Ev.qlib \in Levels /\ Ev.form \in {"ao", "al"}) THEN Kill("illegal step")
      ELSE IF ~Ev.ok THEN Kill("step failed")
      ELSE /\ Split(L, Ev.qlib, level, Ev.form) /\ Good
-          /\ l' = l + 1 /\ UNCHANGED <<prog, seen, rawcur, dead, cov>>
+          /\ l' = l + 1 /\ UNCHANGED <<prog, seen, rawcur, dead, wide>>
 
 TrLinkRun ==
-  /\ IsEvent("LinkRun") /\ ~dead
+  /\ IsEvent("LinkRun") /\ ~dead /\ UNCHANGED need
   /\ IF ~(split # None /\ split.linked = None /\ Ev.route \in Runs /\ split.lib.symes) THEN Kill("illegal step")
      ELSE IF ~Ev.ok THEN Kill("step failed")
      ELSE /\ LinkRun(Ev.route)
@@ -159,9 +159,6 @@ TrLinkRun ==
              ELSE IF Key(Ev.route) \in DOMAIN seen /\ Ev.od # seen[Key(Ev.route)].od
                   THEN Bad("behaviour: the split program differs from the whole program")
              ELSE Good
-          \* a library + client program that ran, conforms and agrees with the one-unit program witnesses its leaf kinds
-          /\ need' = IF "leaves" \in DOMAIN Ev /\ Ev.conf /\ Key(Ev.route) \in DOMAIN seen /\ Ev.od = seen[Key(Ev.route)].od
-                      THEN [need EXCEPT !.leaves = @ \ ToSet(Ev.leaves)] ELSE need
           /\ l' = l + 1 /\ UNCHANGED <<prog, seen, rawcur, dead, wide>>
 
 Finish ==
